@@ -305,6 +305,35 @@ fn main() {
             }
         }
     }
+    // C10: on well-formed input the unchecked get agrees with the checked one — long strings with escapes / quotes /
+    // brackets placed around the 64-byte blocks of the container skipper
+    if want("C10") {
+        let mut fam: Vec<String> = Vec::new();
+        for pad in 0..200usize {
+            let a = "a".repeat(pad);
+            for tail in ["\\\"", "\\\\", "]", "}\\\"{", "\\n"] {
+                fam.push(format!("[[\"{a}{tail}]\", 1], {{\"k\":\"v\"}}]"));
+                fam.push(format!("{{\"x\":{{\"s\":\"{a}{tail}}}\"}},\"k\":[1,2]}}"));
+            }
+        }
+        for txt in &fam {
+            if !is_text(txt.as_bytes()) { continue; }
+            let r = catch_unwind(AssertUnwindSafe(|| {
+                let c1 = sonic_rs::get(txt.as_str(), &[1usize]).ok().map(|l| l.as_raw_str().to_string());
+                let u1 = unsafe { sonic_rs::get_unchecked(txt.as_str(), &[1usize]) }.ok().map(|l| l.as_raw_str().to_string());
+                let c2 = sonic_rs::get(txt.as_str(), &["k"]).ok().map(|l| l.as_raw_str().to_string());
+                let u2 = unsafe { sonic_rs::get_unchecked(txt.as_str(), &["k"]) }.ok().map(|l| l.as_raw_str().to_string());
+                (c1, u1, c2, u2)
+            }));
+            match r {
+                Ok((c1, u1, c2, u2)) => {
+                    if c1 != u1 { report("C10", format!("get_unchecked({:?}, [1]) = {:?}, checked get = {:?}", txt, u1, c1)); }
+                    if c2 != u2 { report("C10", format!("get_unchecked({:?}, [\"k\"]) = {:?}, checked get = {:?}", txt, u2, c2)); }
+                }
+                Err(_) => report("C10", format!("get / get_unchecked panics on {:?}", txt)),
+            }
+        }
+    }
     // C05: compact and pretty output of the real serializer against serde_json's on the same data model
     if want("C05") {
         for d in &docs {
